@@ -131,6 +131,8 @@ def diagnose(w, conc, created, fr_ctx, m, ex, world_addrs, base_mism, cheat=None
     from evm.cheats_ref import CheatStop
 
     for q in QUIRKS:
+        if hasattr(cheat, "for_pair"):
+            return None
         try:
             evm, world, fr = E_run_reference(w, conc, created, quirks=frozenset([q]), cheat=cheat, cheat_addrs=cheat_addrs)
         except (Unsupported, StepLimit, CheatStop):
@@ -143,7 +145,7 @@ def diagnose(w, conc, created, fr_ctx, m, ex, world_addrs, base_mism, cheat=None
     return None
 
 
-def E_run_reference(w, conc, created, quirks=frozenset(), cheat=None, cheat_addrs=()):
+def E_run_reference(w, conc, created, quirks=frozenset(), cheat=None, cheat_addrs=(), sender_hook=None):
     from evm.refevm import DEFAULT_BLOCK, RefEVM, World
 
     world = World()
@@ -162,13 +164,14 @@ def E_run_reference(w, conc, created, quirks=frozenset(), cheat=None, cheat_addr
 
     evm = RefEVM(world, block={**DEFAULT_BLOCK, **(w.block or {})}, addr_oracle=oracle, cheat=cheat,
                  cheat_addrs=cheat_addrs, quirks=quirks)
+    evm.sender_hook = sender_hook
     fr = evm.run_tx(w.target, conc["caller"], conc["origin"], conc["value"], conc["data"])
     return evm, world, fr
 
 
 def engine_run(ch, *, bias=None, unknown_rates=(0.0, 0.0, 0.03, 0.3, 1.0), n_sigmas=6, max_paths=48,
                keep_log=False, check_pruned=True, options_bias=None, small_keys=False, world_fn=None, cheat=None,
-               cheat_addrs=()):
+               cheat_addrs=(), path_hook=None):
     """one simulated run; returns (violations, stats dict)"""
     # ---------------- swarm (drawn first so that it shrinks last)
     unknown_rate = ch.choose(list(unknown_rates), "sw.unknown")
@@ -242,8 +245,17 @@ def engine_run(ch, *, bias=None, unknown_rates=(0.0, 0.0, 0.03, 0.3, 1.0), n_sig
             """compare path r under model m (which assigns sigma) with the reference"""
             conc = inp.concrete(sigma)
             created = E.created_addresses(m, r.context)
+            pair_model = cheat.for_pair(m, r) if hasattr(cheat, "for_pair") else None
             try:
-                evm, world, fr = E_run_reference(w, conc, created, cheat=cheat, cheat_addrs=cheat_addrs)
+                if pair_model is not None:
+                    evm, world, fr = E_run_reference(w, conc, created, cheat=pair_model.handler, cheat_addrs=cheat_addrs,
+                                                     sender_hook=pair_model.resolve_sender)
+                    if pair_model.fresh_problems:
+                        violations.append(dict(oracle="ENGINE:fresh-symbol", disc="malformed-value",
+                                               detail=f"path {r.index}, input {origin}: {pair_model.fresh_problems[:3]}", kind="fresh"))
+                        return
+                else:
+                    evm, world, fr = E_run_reference(w, conc, created, cheat=cheat, cheat_addrs=cheat_addrs)
             except CheatStop as cs:
                 probe("ref_" + cs.kind)
                 if cs.kind == "assert-failed":
@@ -315,6 +327,8 @@ def engine_run(ch, *, bias=None, unknown_rates=(0.0, 0.0, 0.03, 0.3, 1.0), n_sig
             probe("paths_with_model")
             sigma = {n: E.ev_int(m, v) for n, v in vars_.items()}
             judge(r, m, sigma, "model")
+            if path_hook is not None:
+                path_hook(r, pv, probe, violations)
         # ---------------- generated sigmas: membership in every path + coverage
         for k in range(n_sigmas):
             sigma = draw_sigma(ch, inp, w, harvested, small_keys)
@@ -341,7 +355,12 @@ def engine_run(ch, *, bias=None, unknown_rates=(0.0, 0.0, 0.03, 0.3, 1.0), n_sig
             # coverage (C02)
             if not members and not stuck_member and not unknown_any:
                 try:
-                    evm, world, fr = E_run_reference(w, conc, [], cheat=cheat, cheat_addrs=cheat_addrs)
+                    if hasattr(cheat, "for_pair"):
+                        pm = cheat.for_pair(None, None)
+                        evm, world, fr = E_run_reference(w, conc, [], cheat=pm.handler, cheat_addrs=cheat_addrs,
+                                                         sender_hook=pm.resolve_sender)
+                    else:
+                        evm, world, fr = E_run_reference(w, conc, [], cheat=cheat, cheat_addrs=cheat_addrs)
                     ref_ok = not evm.opaque_used
                 except (Unsupported, StepLimit):
                     ref_ok = False
